@@ -12,7 +12,7 @@ import itertools
 
 from .. import AnalysisError, tables
 from ..callgraph import callgraph
-from ..fsinterp import ABSENT, Interp, Path, State, UNKNOWN, handler_names, run_writer, PARTIAL_LOAD_ERRORS
+from ..fsinterp import ABSENT, Interp, Path, State, UNKNOWN, handler_names, run_writer, PARTIAL_LOAD_ERRORS, PICKLE_PARTIAL_LOAD_ERRORS
 from ..canon import canon
 from ..pm import dotted, src
 from ..q import FA, call_name, walk_no_nested
@@ -187,7 +187,7 @@ def run(ctx):
     # name of the file that was loaded.
     rff = ctx.fn(tables.FS + "._resume_from_file")
     fallback_ = [c_ for c_ in walk_no_nested(rff.node) if isinstance(c_, ast.Call) and isinstance(c_.func, ast.Attribute) and c_.func.attr == "resume"]
-    ctx.ob("R-FS", "C11.5", rff, "the reader passes the candidate name it is loading (primary, then `.old`) to <Sampler>.resume", len(fallback_) == 2 and (any(isinstance(s_, ast.AugAssign) and src(s_.value) in ("'.old'", '".old"') for s_ in walk_no_nested(rff.node)) or sum(1 for c_ in fallback_ if c_.args and any(isinstance(k_, ast.Constant) and k_.value == ".old" for k_ in ast.walk(c_.args[0]))) == 1), f"{[src(c_)[:60] for c_ in fallback_]}")
+    ctx.ob("R-FS", "C11.5", rff, "the reader passes the candidate name it is loading (primary, then `.old`) to <Sampler>.resume", len(fallback_) >= 2 and (any(isinstance(s_, ast.AugAssign) and src(s_.value) in ("'.old'", '".old"') for s_ in walk_no_nested(rff.node)) or sum(1 for c_ in fallback_ if c_.args and any(isinstance(k_, ast.Constant) and k_.value == ".old" for k_ in ast.walk(c_.args[0]))) == 1), f"{[src(c_)[:60] for c_ in fallback_]}")
     n_rf = 0
     for f_ in prog.all_functions:
         for s_ in walk_no_nested(f_.node):
@@ -310,6 +310,9 @@ class SamplerReader:
         br = ctx.fn(tables.BASE + ".resume")
         k = loader_param(prog, res, br)
         ctx.ob("R-FS", "C11.3", br, "SamplerClass.resume opens and unpickles exactly the file it is given", k == 0 and any(isinstance(n, ast.Call) and call_name(n) == "pickle.load" for n in walk_no_nested(br.node)), f"loader parameter index {k}")
+        # (what a torn sampler file raises depends on the loader: pickle.load raises EOFError / UnpicklingError only)
+        loads_ = [call_name(n) or "" for n in walk_no_nested(br.node) if isinstance(n, ast.Call) and (call_name(n) or "").endswith(".load")]
+        self.sampler_load_errors = PICKLE_PARTIAL_LOAD_ERRORS if loads_ and all(x_ in ("pickle.load", "dill.load") for x_ in loads_) else PARTIAL_LOAD_ERRORS
         # NestedSampler.resume_from_pickled_sampler -> _flow_proposal.resume(model, flow_config, weights_path)
         nr = ctx.fn(tables.NS + ".resume_from_pickled_sampler")
         calls = [c for _, c in FA(nr).find_expr(lambda e: isinstance(e, ast.Call) and isinstance(e.func, ast.Attribute) and e.func.attr == "resume" and isinstance(e.func.value, ast.Attribute) and e.func.value.attr == "_flow_proposal")]
@@ -320,7 +323,7 @@ class SamplerReader:
             self.attempts_desc.append([handler_names(h) for h in t.handlers])
 
     def describe(self):
-        return {"candidates": self.candidates, "except_clauses_of_attempts": self.attempts_desc, "partial_load_raises": PARTIAL_LOAD_ERRORS}
+        return {"candidates": self.candidates, "except_clauses_of_attempts": self.attempts_desc, "partial_load_raises": PARTIAL_LOAD_ERRORS, "partial_sampler_pickle_raises": self.sampler_load_errors}
 
     # -- weights reader: interpret FlowProposal.resume --------------------
     def weights_outcomes(self, st: State, wref):
@@ -363,7 +366,7 @@ class SamplerReader:
 
         def do_resume(interp, c, s):
             p = interp.value(c.args[0], s)
-            outs = interp.load(p, s, src(c))
+            outs = interp.load(p, s, src(c), errors=reader.sampler_load_errors)
             res_ = []
             for s1, sig in outs:
                 if sig is not None:
